@@ -27,6 +27,12 @@ CHECKS = {
     "C06": dict(cat="translation_validation", tech="Lean 4: simulation with consuming latches ⇒ no control-variable error on any path (no_ctl_error) + tablesOK",
                 text="Every stage output is checked by `ctlOK`; Scfg.C06.no_ctl_error proves that then no path of any length reads an unset or out-of-range "
                      "control variable (latches consume their variable), tables_sound gives the static table property.", ref="§7 C06"),
+    "C14": dict(cat="proof", tech="Lean 4: a-priori theorems about the model of the rewiring loop + exact-dump correspondence of the edit-primitive model with the code + Lean arc-specification decider on real before/after pairs",
+                text="Scfg/Model/Edit.lean models insert_block, insert_block_and_control_blocks, join_returns, join_tails_and_exits, table maintenance and region renaming including abort sites; "
+                     "Scfg.C14.rewire_frame/rewire_rerouted/rewire_new_once/rewire_id are proved for all target lists and all S; random edit histories on real SCFG objects are compared dump-for-dump with the model after every step, "
+                     "and Scfg.Model.insertSpecOK/insertCtlSpecOK/joinReturnsSpecOK judge every completed real call.", ref="§7 C14",
+                note="Trusted: Lean kernel + the three standard axioms; the hand-written model corresponds to the code only as far as the random histories exercise it (thousands of steps per run, 0 mismatches required); "
+                     "lifting of the rewire theorems to whole insert_block calls is by the decider on real outputs, not yet an a-priori theorem."),
 }
 
 NOT_YET = {}
